@@ -395,6 +395,20 @@ fn run(ctx: &Ctx, rep: &Report) {
             rep.violation(format!("panic:file-mode:{}", p.site()), format!("file mode {m} makes the builder panic: {}", p.message), json!({"kind": "mode", "mode": m}), 1);
         }
     }
+    // source files whose modification time cannot be converted (before 1970, beyond 2106) or sits at an
+    // edge: the state of the file system is an argument too
+    for (k, secs) in [-100_000i64, -1, 0, 1, (1 << 31) - 1, 1 << 31, (1i64 << 32) - 1, 1 << 32, 1 << 34].into_iter().enumerate() {
+        let p = dir.join(format!("mtime-{k}"));
+        if std::fs::write(&p, b"x").is_err() || !crate::gen::build::set_mtime(&p, secs) {
+            continue;
+        }
+        rep.eval(1);
+        rep.nontrivial(hash_str(&format!("mtime{secs}")));
+        let r = guard(|| new_builder().with_file(&p, FileOptions::new("/etc/mtime")).and_then(|b| b.build()).map(|_| ()));
+        if let Err(pn) = r {
+            rep.violation(format!("panic:source-mtime:{}", pn.site()), format!("a source file dated {secs} s makes the builder panic: {}", pn.message), json!({"kind": "source-mtime", "secs": secs}), 1);
+        }
+    }
     for (what, path) in [("missing-source", dir.join("does-not-exist")), ("directory-source", dir.clone())] {
         rep.eval(1);
         // a source that cannot be read as a file: with_file() or build() may refuse it (a builder that
